@@ -248,6 +248,8 @@ func verifSetup() *vRun {
 		r.tracks = []*Track{verifAudioTrack("")}
 	case 3:
 		r.tracks = []*Track{verifAudioTrack("a"), verifAudioTrack("b")}
+	case 4:
+		r.tracks = []*Track{{Codec: &codecs.Opus{ChannelCount: 2}, ClockRate: 48000}}
 	}
 	hasVideo := layout <= 1
 	segCount := verifParam("SEGCOUNT", 3)
@@ -455,8 +457,61 @@ var verifVideoStarted = map[int]bool{}
 func (r *vRun) videoStarted(ti int) bool { return verifVideoStarted[ti] }
 func (r *vRun) markVideoStarted(ti int)  { verifVideoStarted[ti] = true }
 
+// Opus packets whose TOC byte encodes 20 ms, 10 ms and 60 ms (SILK NB configs 1, 0, 3; one frame)
+var verifOpusTOC = []byte{1 << 3, 0 << 3, 3 << 3}
+var verifOpusDur = []int64{960, 480, 2880}
+
+// writeOpus: one WriteOpus call with 1..3 packets of different durations, symbolic PTS.
+func (r *vRun) writeOpus(ti int) {
+	g, t := r.g, r.g.tracks[ti]
+	n := 1 + verifChoice("npackets", verifParam("MAXAUS", 3))
+	var pts int64
+	if !t.hasDTS {
+		pts = verifRangeI64("odts0", -480000, 1<<33)
+	} else {
+		d := verifRangeI64("odelta", 0, 1<<20)
+		verifPrefer(d >= 1)
+		pts = t.lastDTS + d
+	}
+	ntp := verifNTPBase.Add(time.Duration(r.k) * time.Second)
+	var packets [][]byte
+	first := verifChoice("firsttoc", 3)
+	for i := 0; i < n; i++ {
+		packets = append(packets, []byte{verifOpusTOC[(first+i)%3], byte(r.k), byte(i), 0xAA})
+	}
+	before := r.m.streams[0].nextSegmentID
+	err := r.m.WriteOpus(r.tracks[ti], ntp, pts, packets)
+	verifAssume(err == nil)
+	cut := false
+	d := pts
+	pntp := ntp
+	for i := 0; i < n; i++ {
+		u := &vUnit{track: ti, k: r.k, dts: d, sync: true, ra: true, payload: packets[i], raw: packets[i], ntp: pntp}
+		if d+g.offset(t) >= 0 {
+			if g.accept(u) {
+				cut = true
+			}
+		}
+		t.lastDTS, t.hasDTS = d, true
+		dur := verifOpusDur[(first+i)%3]
+		d += dur
+		pntp = pntp.Add(timestampToDuration(dur, 48000))
+	}
+	after := r.m.streams[0].nextSegmentID
+	if cut {
+		verifReach("cut")
+		verifAssert("C02", "cut-when-due", after > before)
+	} else {
+		verifAssert("C02", "no-cut-unless-due", after == before)
+	}
+}
+
 func (r *vRun) writeAudio(ti int) {
 	g, t := r.g, r.g.tracks[ti]
+	if _, isOpus := r.tracks[ti].Codec.(*codecs.Opus); isOpus {
+		r.writeOpus(ti)
+		return
+	}
 	n := 1 + verifChoice("naus", verifParam("MAXAUS", 1))
 	var dts int64
 	if verifParam("CONCRETE", 0) == 1 {
